@@ -158,4 +158,26 @@ PROPS = {
             sub("rotation", "c18_transforms", 3000, 50000),
             sub("hermite", "c18_transforms", 3000, 50000),
         ]),
+    "C03": dict(
+        level="exploration",
+        rule=("for every basic structure the library accepts in R^d (d<=3), rapidcheck-generated third parameter in (0,getParMax()], scales / anisotropy / "
+              "rotation, PSD sill matrices (nvar<=3, incl. rank-deficient) and sums of up to 3 structures: Model::eval / evalIvarIpas equal the published "
+              "closed form evaluated by the harness at the normalised distance measured along the rotated axes (own rotation code); C(h)=C(-h), "
+              "|C(h)|<=C(0) for stationary structures, variogram mode = C(0)-C(h), compact structures vanish beyond their range along every rotated axis, "
+              "ranges read back = ranges given and are practical (5 %) ranges where claimed; evalCovMatrixSymmetric on lattices (spacing/scale 0.05-3), "
+              "clustered and random point sets (n*nvar<=96) is symmetric and PSD (lambda_min >= -1e-9 N lambda_max, eigenvalues computed in the harness), "
+              "conditionally on increments filtering monomials of degree <= getMinOrder() for intrinsic structures; non-trivial = >=2 dimensions or "
+              "anisotropic or >=2 variables or several structures; distinct = hash of (structure list, ndim, parameter bucket, layout class, spacing bucket)"),
+        assumptions=["anisotropy convention of DESIGN section 3 (2-D angle counter-clockwise; 3-D rotations about z, new y, new x)",
+                     "intrinsic structures are compared modulo an even polynomial of degree <= 2k in h (null on authorised increments)",
+                     "REG1D and PENTA have no identifiable published form: their value oracle is a transcription of the library formula (validity decided by the psd sub)",
+                     "range->scale conversions giving scales < 1e-9 or scadef > 1e6 are skipped (rejected by the library); GAMMA param < 0.05 exempt from the 5 % statement",
+                     "conditional-PSD tolerance relative to ||K||_2 of the unprojected matrix",
+                     "failure keys carry structure and dimension; results outside the literature validity domain get the suffix outside-math-domain (recorded findings), inside it the plain key (violation)"],
+        subs=[
+            sub("value", "c03_cov", 8000, 300000),
+            sub("range", "c03_cov", 6000, 200000),
+            sub("relations", "c03_cov", 5000, 150000),
+            sub("psd", "c03_cov", 4000, 100000),
+        ]),
 }
